@@ -20,7 +20,7 @@ def builds_needed(tier):
 
 def bounds(tier):
     if tier == "thorough":
-        return {"t": "1..=4", "p": "1..=5", "m": "8p..33p set, 516p/520p/520p+5 (p<=3), 2048 (p in 1,4)", "tag_lengths": "4..=300"}
+        return {"t": "1..=4", "p": "1..=5", "m": "8p..33p set, every m in 8p..=12p+3 at t=1, 516p/520p/520p+5 (p<=3), 2048 (p in 1,4)", "tag_lengths": "4..=300"}
     return {"t": "1..=2", "p": "1..=3", "m": "8p..33p set, one 520p case per type", "tag_lengths": "{4,5,31,32,33,63,64,65,96,97,128,300}"}
 
 
@@ -66,7 +66,10 @@ def shard_grid(arg, tier):
     ck = core.Checker(PROPERTY_ID)
     cases = []
     for t in ts:
-        for m in (8 * p, 8 * p + 1, 8 * p + 3, 8 * p + 7, 16 * p, 33 * p):
+        ms = [8 * p, 8 * p + 1, 8 * p + 3, 8 * p + 7, 16 * p, 33 * p]
+        if tier == "thorough" and t == 1:
+            ms = sorted(set(ms) | set(range(8 * p, 12 * p + 4)))      # every residue modulo 4p
+        for m in ms:
             tag = argon2.argon2(ty, ver, t, p, m, PW, SALT, KEY, AAD, 32)
             cases.append(([prog(ty, ver, t, p, m, PW, SALT, KEY, AAD, 32), prog(ty, ver, t, p, m, PW, SALT, KEY, AAD, 32, "arr")],
                           [obs_of(tag), obs_of(tag)], None))
